@@ -65,12 +65,12 @@ def make_solver():
             return St(t + dt_, UF("stepx", x, t, dt_), ns + 1.0)
 
         def interpolate_fwd(self, *, t, interp_from, interp_to):
-            t, a, b = PROBE("interp", t, interp_from.t, interp_to.t)
+            t, a, b, xa, xb = PROBE("interp", t, interp_from.t, interp_to.t, interp_from.x, interp_to.x)
             mid = St(t, UF("interpx", interp_from.x, interp_to.x, t), interp_to.num_steps)
             return mid, InterpResult(step_from=interp_to, interp_from=mid)
 
         def interpolate_fwd_at_t1(self, *, t, interp_from, interp_to):
-            t, a, b = PROBE("interp_at", t, interp_from.t, interp_to.t)
+            t, a, b, xa, xb = PROBE("interp_at", t, interp_from.t, interp_to.t, interp_from.x, interp_to.x)
             return interp_to, InterpResult(step_from=interp_to, interp_from=interp_to)
 
         def userfriendly_output(self, *, solution0, solution, solution1):
@@ -138,8 +138,8 @@ def _and(xs):
     return z3.And(xs) if len(xs) > 1 else xs[0]
 
 
-def _run(case_id, res, seed, replay_dir, log):
-    import re
+def symbolic_run(routine, ctrl, clip, nc, ko, ki, seed, T=None, dom=None):
+    """trace the real driver with the scripted solver and execute the jaxpr over z3 terms"""
     import jax
     import jax.numpy as jnp
     from probdiffeq import ivpsolve
@@ -147,9 +147,6 @@ def _run(case_id, res, seed, replay_dir, log):
     from jxs.zdomain import Z3Domain, zarr, zvec
     from jxs import markers
     from jxs.trace import count_eqns
-    routine, ctrl, clip, sz = case_id.split("/")
-    nc, ko, ki = map(int, re.match(r"c(\d+)o(\d+)i(\d+)", sz).groups())
-    clip = clip == "clip"
     solver, error = make_solver()
 
     def fn(x0, save_at, dt0, eps, safety, fmin, fmax):
@@ -161,29 +158,41 @@ def _run(case_id, res, seed, replay_dir, log):
         else:
             solve = ivpsolve.solve_adaptive_terminal_values(solver=solver, error=error, control=control, clip_dt=clip)
             sol = solve(x0, t0=save_at[0], t1=save_at[1], atol=1e-3, rtol=1e-3, dt0=dt0, eps=eps)
-        return sol.t, sol.num_steps
+        return sol.t, sol.num_steps, sol.x
     ex = (0.5, jnp.linspace(0.0, 1.0, nc + 1), 0.1, 1e-8, 0.9, 0.2, 10.0)
     closed = jax.make_jaxpr(fn)(*ex)
-    dom = Z3Domain(linearize=True)
+    dom = dom or Z3Domain(linearize=True)
     it = Interp(dom, while_bound=[ko, ki])
     markers.install(it)
-    T = [z3.Real(f"T{i}") for i in range(nc + 1)]
+    T = T or [z3.Real(f"T{i}") for i in range(nc + 1)]
     dt0, eps, x0 = z3.Real("dt0"), z3.Real("eps"), z3.Real("x0")
     PARAMS = {0: (Fraction(19, 20), Fraction(1, 5), Fraction(10)), 1: (Fraction(1, 2), Fraction(1, 2), Fraction(2))}[seed % 2]
     safety, fmin, fmax = [z3.RealVal(str(v)) for v in PARAMS]
     tt = time.time()
     outs = it.eval(closed.jaxpr, closed.consts, [zarr(x0), zvec(T), zarr(dt0), zarr(eps), zarr(safety), zarr(fmin), zarr(fmax)])
-    ts_out, ns_out = outs
-    res["encoded"] = {"jaxpr_eqns": count_eqns(closed.jaxpr), "eqns_interpreted": it.n_eqns,
-                      "primitives": dict(sorted(it.prims_seen.items())), "probes": len(it.probes),
-                      "unwinding_conditions": len(it.unwinding), "interp_s": round(time.time() - tt, 2)}
-    s = z3.Solver()
-    s.set("timeout", 120000)
-    # ---------------- assumptions
+    enc = {"jaxpr_eqns": count_eqns(closed.jaxpr), "eqns_interpreted": it.n_eqns,
+           "primitives": dict(sorted(it.prims_seen.items())), "probes": len(it.probes),
+           "unwinding_conditions": len(it.unwinding), "interp_s": round(time.time() - tt, 2)}
+    return {"it": it, "dom": dom, "outs": outs, "T": T, "dt0": dt0, "eps": eps, "x0": x0,
+            "params": (safety, fmin, fmax), "encoded": enc}
+
+
+def base_assumptions(runs, nc_list):
+    """assumptions shared by all obligations: positivity, ordered checkpoints, UF axioms, unwinding"""
+    from jxs.interp import is_sym
+    r0 = runs[0]
+    dom = r0["dom"]
+    dt0, eps = r0["dt0"], r0["eps"]
+    safety, fmin, fmax = r0["params"]
     A = [dt0 > 0, eps > 0]
-    for i in range(nc):
-        A.append(T[i + 1] - T[i] > 2 * eps)         # distinct, increasing checkpoints
-    errf = dom.ufs.get("errpow")
+    seenT = set()
+    for r in runs:
+        T = r["T"]
+        for i in range(len(T) - 1):
+            key = (T[i].get_id(), T[i + 1].get_id())
+            if key not in seenT:
+                seenT.add(key)
+                A.append(T[i + 1] - T[i] > 2 * eps)
     seen = set()
     apps = []
 
@@ -196,34 +205,54 @@ def _run(case_id, res, seed, replay_dir, log):
                 apps.append(e)
             for c in e.children():
                 collect(c)
-    probes = it.probes
-    for p in probes:
-        for g in p["guard"]:
-            if z3.is_expr(g):
-                collect(g)
-        for a in p["args"]:
-            if is_sym(a):
-                collect(a[()])
+    for r in runs:
+        for p in r["it"].probes:
+            for g in p["guard"]:
+                if z3.is_expr(g):
+                    collect(g)
+            for a in p["args"]:
+                if is_sym(a):
+                    collect(a[()])
     for a in apps:
         A.append(a > 0)
-    for (q, arg, r) in dom.pow_apps:                 # axioms of x**q, q>0, on the occurring terms
-        A += [z3.Implies(arg > 0, r > 0), z3.Implies(z3.And(arg > 0, arg < 1), r < 1),
-              z3.Implies(arg >= 1, r >= 1), z3.Implies(arg == 1, r == 1)]
+    for (q, arg, rr) in dom.pow_apps:
+        A += [z3.Implies(arg > 0, rr > 0), z3.Implies(z3.And(arg > 0, arg < 1), rr < 1),
+              z3.Implies(arg >= 1, rr >= 1), z3.Implies(arg == 1, rr == 1)]
     consts = [z3.RealVal(1), fmin, fmax, safety]
-    for (a, b, r) in dom.mul_apps:                   # axioms of the product of two symbolic terms
-        A += [z3.Implies(z3.And(a > 0, b > 0), r > 0)]
+    for (a, b, rr) in dom.mul_apps:
+        A += [z3.Implies(z3.And(a > 0, b > 0), rr > 0)]
         for c in consts:
-            A += [z3.Implies(z3.And(b > 0, a <= c), r <= c * b), z3.Implies(z3.And(b > 0, a >= c), r >= c * b),
-                  z3.Implies(z3.And(b > 0, a < c), r < c * b), z3.Implies(z3.And(b > 0, a > c), r > c * b),
-                  z3.Implies(z3.And(a > 0, b <= c), r <= c * a), z3.Implies(z3.And(a > 0, b >= c), r >= c * a),
-                  z3.Implies(z3.And(a > 0, b < c), r < c * a), z3.Implies(z3.And(a > 0, b > c), r > c * a)]
-    for (a, b, r) in dom.div_apps:                   # axioms of the quotient a/b, b>0
-        A += [z3.Implies(z3.And(a > 0, b > 0), r > 0), z3.Implies(z3.And(b > 0, a < b), r < 1),
-              z3.Implies(z3.And(b > 0, a >= b), r >= 1), z3.Implies(z3.And(b > 0, a == b), r == 1)]
+            A += [z3.Implies(z3.And(b > 0, a <= c), rr <= c * b), z3.Implies(z3.And(b > 0, a >= c), rr >= c * b),
+                  z3.Implies(z3.And(b > 0, a < c), rr < c * b), z3.Implies(z3.And(b > 0, a > c), rr > c * b),
+                  z3.Implies(z3.And(a > 0, b <= c), rr <= c * a), z3.Implies(z3.And(a > 0, b >= c), rr >= c * a),
+                  z3.Implies(z3.And(a > 0, b < c), rr < c * a), z3.Implies(z3.And(a > 0, b > c), rr > c * a)]
+    for (a, b, rr) in dom.div_apps:
+        A += [z3.Implies(z3.And(a > 0, b > 0), rr > 0), z3.Implies(z3.And(b > 0, a < b), rr < 1),
+              z3.Implies(z3.And(b > 0, a >= b), rr >= 1), z3.Implies(z3.And(b > 0, a == b), rr == 1)]
     A += dom.side
-    for u in it.unwinding:                           # unwinding ASSUMPTION (bounded histories)
-        g = _and([x for x in u["guard"] if z3.is_expr(x)])
-        A.append(z3.Not(z3.And(g, u["residual"])))
+    for r in runs:
+        for u in r["it"].unwinding:
+            g = _and([x for x in u["guard"] if z3.is_expr(x)])
+            A.append(z3.Not(z3.And(g, u["residual"])))
+    return A, apps
+
+
+def _run(case_id, res, seed, replay_dir, log):
+    import re
+    from jxs.interp import is_sym
+    routine, ctrl, clip, sz = case_id.split("/")
+    nc, ko, ki = map(int, re.match(r"c(\d+)o(\d+)i(\d+)", sz).groups())
+    clip = clip == "clip"
+    run = symbolic_run(routine, ctrl, clip, nc, ko, ki, seed)
+    it, dom, T = run["it"], run["dom"], run["T"]
+    dt0, eps, x0 = run["dt0"], run["eps"], run["x0"]
+    safety, fmin, fmax = run["params"]
+    ts_out, ns_out, _x_out = run["outs"]
+    res["encoded"] = run["encoded"]
+    s = z3.Solver()
+    s.set("timeout", 120000)
+    A, apps = base_assumptions([run], [nc])
+    probes = it.probes
     s.add(A)
     r0 = str(s.check())
     res["vacuity"] = {"assumptions_satisfiable": r0}
@@ -231,6 +260,16 @@ def _run(case_id, res, seed, replay_dir, log):
         res["status"] = "inconclusive"
         res["notes"].append(f"assumptions not satisfiable: {r0}")
         return
+    _rest(case_id, res, seed, replay_dir, log, run, s, apps, routine, ctrl, clip, nc)
+
+
+def _rest(case_id, res, seed, replay_dir, log, run, s, apps, routine, ctrl, clip, nc):
+    from jxs.interp import is_sym
+    it, dom, T = run["it"], run["dom"], run["T"]
+    dt0, eps, x0 = run["dt0"], run["eps"], run["x0"]
+    safety, fmin, fmax = run["params"]
+    ts_out, ns_out, _x_out = run["outs"]
+    probes = it.probes
 
     def G(p):
         return _and([x for x in p["guard"] if z3.is_expr(x)])
